@@ -120,7 +120,9 @@ impl ProofInstrumentor<'_> {
                 [premise_proof_id] => *premise_proof_id,
                 _ => proof_id,
             },
-            _ => panic!("expected rule justification for existence proof"),
+            // A term asserted at the top level exists by fiat: that proof has
+            // no premise to unwrap.
+            _ => proof_id,
         };
 
         // Check the proof before simplification
